@@ -126,7 +126,7 @@ def gen_case(rng, numeric=False):
 def build(case, ems):
     import chi
     from harness.toy import ToyModel
-    times = [[z / DEN for z in g] for g in case['grids']]
+    times = [[z / case.get('den', DEN) for z in g] for g in case['grids']]
     obs = [list(o) for o in case['obs']]
     if case['n_out'] == 1 and len(times) == 1 and len(obs) == 1 and case.get('flat'):
         times, obs = times[0], obs[0]
@@ -254,7 +254,7 @@ def oracle(case):
         par = th[start:start + npar]
         start += npar
         for z, y in zip(g, ys):
-            t = z / DEN
+            t = z / case.get('den', DEN)
             m = th[0] * (1 + o) + th[1] * t + th[2] * t * t * o
             ref_pw.append(c04.ref_logpdf(k, par, m, y))
             groups.append((o, z))
@@ -296,6 +296,23 @@ def long_case(rng):
         err += [scale, scale / 10] if k == 'CMG' else [scale]
     return {'n_out': n_out, 'n_em': n_out, 'grids': grids, 'obs': obs, 'counts': [2 if k == 'CMG' else 1 for k in kinds],
             'kinds': kinds, 'theta': th + err, 'pattern': 'long', 'invalid': None}
+
+
+def odd_times_case(rng):
+    """measurement times that are not short decimals (hours expressed in days, thirds of a unit)"""
+    n_out = rng.choice([1, 2, 3])
+    den = rng.choice([24, 24, 3, 7])
+    kinds = [rng.choice(KINDS) for _ in range(n_out)]
+    th = [rng.uniform(2.0, 6.0), rng.uniform(0.0, 0.5), rng.uniform(0.0, 0.05)]
+    pool = sorted(rng.sample(range(1, 200), 6))
+    grids, obs, err = [], [], []
+    for o, k in enumerate(kinds):
+        g = sorted(rng.choice(pool) for _ in range(rng.randint(1, 5)))
+        grids.append(g)
+        obs.append([(th[0] * (1 + o) + th[1] * (z / den) + th[2] * (z / den) ** 2 * o) * rng.uniform(0.9, 1.1) for z in g])
+        err += [0.5, 0.1] if k == 'CMG' else [0.5]
+    return {'n_out': n_out, 'n_em': n_out, 'grids': grids, 'obs': obs, 'counts': [2 if k == 'CMG' else 1 for k in kinds],
+            'kinds': kinds, 'theta': th + err, 'pattern': 'odd times', 'invalid': None, 'den': den}
 
 
 def key_of(case, what):
@@ -371,12 +388,23 @@ def run(ck):
             d = 'chi raised %s: %s' % (type(e).__name__, e)
         if d:
             ck.violation(key_of(case, ''), d, case)
+    for j in range(ck.n(40, 300)):
+        case = odd_times_case(random.Random(ck.seed * 59 + j))
+        ck.count('times that are no short decimals')
+        ck.case({'odd times': {'grids': case['grids'], 'den': case['den'], 'kinds': case['kinds']}})
+        try:
+            d = oracle(case)
+        except Exception as e:
+            d = 'chi raised %s: %s' % (type(e).__name__, e)
+        if d:
+            ck.violation(key_of(case, ''), d, case)
     ck.cov['rule'] = ('exact: 1-4 outputs, grids drawn with repetition from a pool of 6 dyadic times in the '
                       'patterns random/distinct/identical/nested/disjoint/coincidence/tied, 18% invalid '
                       'constructions (negative, unsorted, shape, counts), 1-3 parameters per recording error '
                       'model; numeric: 1-3 outputs, the four real error models assigned at random, 10% outside '
                       'the support, each evaluated fresh and after a history through a shared in-place buffer; long series of '
-                      '300-1200 measurements per output at small and large scales checked directly; '
+                      '300-1200 measurements per output at small and large scales, and grids of times k/24, k/3, k/7, checked '
+                      'directly; '
                       'distinct = distinct case description; all cases exercise a real chi.LogLikelihood')
     ck.log('certifying %d numeric cases' % len(num_cases))
     badn = ck.numeric('score', HEADER_NUM, UNFOLD_NUM, num_cases, shard=6)
